@@ -60,7 +60,12 @@ def run_case(case, step_hook=None):
     DYNAMIC_ROUTER_MAX_RETRIES=case.get('max_retries', 1), DESTINATION_PROTOCOL=case['protocol'],
     DESTINATIONS=[dest_string(d) for d in dests], RELAY_METHOD='consistent-hashing', REPLICATION_FACTOR=1,
     DIVERSE_REPLICAS=False, ROUTER_HASH_TYPE='carbon_ch', TAG_RELAY_NORMALIZED=False, LOG_LISTENER_CONN_SUCCESS=False,
-    program='carbon-relay', instance=None)
+    program='carbon-relay', instance=None,
+    # documented option: reset a connection whose sent/received ratio of the previous instrumentation period is poor
+    USE_RATIO_RESET=bool(case.get('ratio_reset')), MIN_RESET_STAT_FLOW=1, MIN_RESET_RATIO=0.9,
+    MIN_RESET_INTERVAL=case.get('reset_interval', 2))
+  # carbon.client's wall clock (time of the last reset) follows the simulated reactor
+  client.time = lambda: 1600000000.0 + sim.seconds()
   # a TCP-like transport: once more than this many bytes are pending it pauses the client protocol from inside
   # write(); the peer reading ('resume' events, quiescence) lets it go on
   sim.pause_threshold = case.get('pause_after')
@@ -158,6 +163,7 @@ def run_case(case, step_hook=None):
 
     counter = [0]
     seen_bytes = {}
+    reset_seen = {}
 
     def harvest():
       for d, f in t.factories.items():
@@ -182,8 +188,13 @@ def run_case(case, step_hook=None):
               t.written[d].append(int(dp[1]))
               t.events.append(('written', d, int(dp[1])))
           if tr2.disconnecting and id(tr2) not in t.closing_seen:
+            resets = b.instrumentation.stats.get('destinations.%s.slowConnectionReset' % ('%s:%d:%s' % d).replace('.', '_'), 0) + \
+                sum(sum(v) for k, v in t.reported.items() if k.endswith('.slowConnectionReset') and ('%s:%d:%s' % d).replace('.', '_') in k)
             t.closing_seen[id(tr2)] = {'dest': d, 'queue': [dp[1] for m, dp in f.queue if dp[0] == TS],
-                                       'written': list(t.written[d]), 'stopped': t.stop_snapshot is not None}
+                                       'written': list(t.written[d]), 'stopped': t.stop_snapshot is not None,
+                                       # closed by the connection-quality reset (USE_RATIO_RESET), not by the stop
+                                       'quality_reset': resets > reset_seen.get(d, 0)}
+            reset_seen[d] = resets
             t.events.append(('closing', d))
 
     def auto_close():
